@@ -1175,6 +1175,12 @@ def generate_all():
     static = os.path.join(os.path.dirname(os.path.dirname(os.path.abspath(__file__))), 'kani', 'static')
     out['+src/core/verif_kani/h_drop.rs'] = open(os.path.join(static, 'h_drop.rs')).read()
     out['+src/core/verif_kani/h_dep.rs'] = open(os.path.join(static, 'h_dep.rs')).read()
+    out['+src/core/verif_kani/h_src.rs'] = open(os.path.join(static, 'h_src.rs')).read()
+    for nm in ('k_src_vec_into_par', 'k_src_vec_par_copied', 'k_src_slice_par_cloned', 'k_src_iter_par', 'k_src_range_into_par'):
+        HARNESSES[nm] = dict(kernel='api', family='src', props=['C01', 'C02', 'C03', 'C04'], tier='quick', bounded=True,
+                             path='core::verif_kani::h_src::%s' % nm, shape=dict(source=nm[6:], elements=3, workers=1),
+                             covers_expected=None, covers_min=0,
+                             bound='real dependency source of 3 symbolic elements, one worker via the Runner contract, terminals count / xor-reduce / first')
     for nm in ('k_dep_vec_protocol', 'k_dep_vec_skip', 'k_dep_iter_protocol', 'k_dep_iter_skip'):
         HARNESSES[nm] = dict(kernel='dependency', family='dep', props=['C01', 'C02', 'C05', 'C10', 'C11'], tier='quick', bounded=True,
                              path='core::verif_kani::h_dep::%s' % nm, shape=dict(source='real ConIterOfVec / ConIterOfIter, 3 elements, one thread'),
